@@ -109,6 +109,10 @@ def judge_network(case, ctx, prefix):
             continue
         must_raise(ctx, prefix, 'detached-reference/network', f'a network whose reference node {lab!r} touches no element', Network, list(brs), lab)
         ctx.evaluated(repr(('detached', lab == '', n)), True)
+    # the same rule for the smallest network there is: one branch, reference node elsewhere
+    for b in brs[:2]:
+        lab = next(x for x in ('ref', 'GROUND', '00') if x not in (b.node1, b.node2))
+        must_raise(ctx, prefix, 'detached-reference/network', f'a one-branch network {b.node1!r}-{b.node2!r} whose reference node {lab!r} touches no element', Network, [b], lab)
     ctx.sample({'network_fault_base': desc})
 
 
